@@ -30,10 +30,20 @@ class FaultSync(Suite):
                                      file_sizes=(0, 5, 100, 32768, 40000, 70000), xattrs=False)
             if not tree:
                 continue
+            if not wide and rng.random() < 0.04:
+                # the caller of Send cancels when every request has been queued and the workers are slow: what is still pending must not
+                # be answered as if it were empty
+                tree = flat_view(rng, rng.choice([20, 30, 40]), (100, 3000, 40000))
+                nf = sum(1 for e in tree if e["t"] == "file")
+                for _ in range(1 if tier == "quick" else 2):
+                    ops.append({"op": "fault", "src": {"kind": "mem", "tree": tree, "read_delay_us": rng.choice([2000, 3000, 5000])}, "dst": [],
+                                "fault": {"kind": "cancelO", "at": rng.randint(max(1, nf // 4), max(2, nf // 2))},
+                                "opt": {"notify": True, "cap": rng.choice([4, 32]), "seed": rng.randrange(1 << 30)}})
+                continue
             dst = [] if rng.random() < (0.4 if wide else 0.6) else gen.mutate_disk_tree(rng, tree)
             nent = len(tree)
             files = [e for e in tree if e["t"] == "file"]
-            kinds = STREAM_FAULTS + ["cancel", "cancelS", "walk", "hasher", "notify", "kill"] + (["read"] if files else [])
+            kinds = STREAM_FAULTS + ["cancel", "cancelS", "walk", "hasher", "notify", "kill"] + (["read", "cancelO"] if files else [])
             reps = 1 if tier == "quick" else 2
             for _ in range(reps):
                 kind = rng.choice(kinds)
@@ -54,6 +64,9 @@ class FaultSync(Suite):
                 elif kind == "cancelS":
                     # the caller of Send cancels while the source is still being walked; the stream stays usable
                     f["at"] = rng.randint(1, nent)
+                elif kind == "cancelO":
+                    # the caller of Send cancels while requests are being served (the walk may be over): at the k-th Open
+                    f["at"] = rng.randint(1, max(1, len(files)))
                 elif kind == "walk":
                     f["at"] = rng.randint(1, nent)
                     if rng.random() < 0.6:
@@ -70,6 +83,8 @@ class FaultSync(Suite):
                     f["off"] = rng.choice([0, 1, e.get("size", 0) // 2, max(0, e.get("size", 0) - 1)])
                 ops.append({"op": "fault", "src": {"kind": "mem", "tree": tree}, "dst": dst, "fault": f,
                             "opt": {"notify": True, "cap": rng.choice([0, 1, 4, 32]), "seed": rng.randrange(1 << 30)}})
+                if kind == "cancelO":
+                    ops[-1]["src"] = dict(ops[-1]["src"], read_delay_us=rng.choice([0, 1000, 3000]))   # requests pile up while the workers wait
                 if kind == "cancelS" and rng.random() < 0.5:
                     ops[-1]["src"]["kind"] = "disk"     # the library's own directory walk is the one that is cancelled
                 if f.get("errno") and stack_filter:
